@@ -495,6 +495,43 @@ def partitionEntries {α : Type} : List Alloc.Entry → PState α → Except Err
     | .error err => .error err
     | .ok p1 => partitionEntries es p1
 
+/-- `Worker.drive` between two join points, for one bulk task: the worker executes the columns of its allocation
+    one after the other (`current_tasks_and_advance`), each by a NEW `AsyncIoAdapter`.  `AsyncIoAdapter.run` starts
+    with an empty `params_per_task` dict, so every (worker, column, task) gets a new parameter source
+    (`PState.init`), partitioned by `schedule_for` for the task allocations of that column only.
+    `cols` = per column: the worker's allocations of the task and the order of `params()` calls;
+    result = per column: the (client index, bulk) pairs handed out and the clients that have seen StopIteration. -/
+def runColumns {α : Type} (o : Oracle) (cfg : Cfg) (corpora : List (Corpus α)) :
+    List (List Alloc.Entry × List Nat) → Except Err (List (List (Nat × Bulk α) × List Nat))
+  | [] => .ok []
+  | (entries, calls) :: rest =>
+    match partitionEntries entries (PState.init : PState α) with
+    | .error err => .error err
+    | .ok p0 =>
+      match runCalls o cfg corpora calls p0 [] with
+      | .error err => .error err
+      | .ok (out, stopped, _) =>
+        match runColumns o cfg corpora rest with
+        | .error err => .error err
+        | .ok outs => .ok ((out, stopped) :: outs)
+
+/-- NOT the code — the alternative in which the worker keeps the task's parameter source for the following
+    columns (late `partition()` calls on a source that has already handed out bulks); only used to show that the
+    per-column rule matters (`shared_source_loses_documents`). -/
+def runColumnsShared {α : Type} (o : Oracle) (cfg : Cfg) (corpora : List (Corpus α)) :
+    List (List Alloc.Entry × List Nat) → PState α → Except Err (List (List (Nat × Bulk α) × List Nat))
+  | [], _ => .ok []
+  | (entries, calls) :: rest, p =>
+    match partitionEntries entries p with
+    | .error err => .error err
+    | .ok p0 =>
+      match runCalls o cfg corpora calls p0 [] with
+      | .error err => .error err
+      | .ok (out, stopped, p1) =>
+        match runColumnsShared o cfg corpora rest p1 with
+        | .error err => .error err
+        | .ok outs => .ok ((out, stopped) :: outs)
+
 /-! ## 6. byte layer: offset table, skip_lines, mmap readline -/
 
 abbrev Byte := Nat
